@@ -10,7 +10,7 @@ import (
 	"verif/checker/ssax"
 )
 
-func init() { Registry["C08"] = Spec{Run: runC08} }
+func init() { Registry["C08"] = Spec{Run: runC08, Packages: []string{"diff"}} }
 
 func runC08(ctx *core.Ctx) {
 	ctx.Trusted = append(ctx.Trusted, "go/types, go/ssa", "fmt.Fprintf, bytes.Equal, strings.SplitAfter")
@@ -360,7 +360,9 @@ func runC08(ctx *core.Ctx) {
 		ctx.Check(ok && drop, "F4", "diff.lines#no-newline-marker", l.Pos(), "marker \"\\n\\\\ No newline at end of file\\n\" appended only to a non-empty last segment (%v); an empty last segment is dropped (%v)", ok, drop)
 	}
 	// ---- F5 consumer
-	if cmp := ctx.Need("F5", "testscript", "(*TestScript).doCmdCmp"); cmp != nil {
+	if len(p.TypeErrs[core.ModPath+"/testscript"]) > 0 {
+		ctx.Note("F5", "testscript.doCmdCmp#diff-operands", token.NoPos, "package testscript does not type-check in this configuration (an upstream condition); the consumer rule is evaluated in the other configurations")
+	} else if cmp := ctx.Need("F5", "testscript", "(*TestScript).doCmdCmp"); cmp != nil {
 		cg := graph(p, cmp)
 		calls := cg.Calls(core.ModPath + "/diff.Diff")
 		if len(calls) != 1 {
